@@ -85,7 +85,15 @@ macro_rules! check {
                 #[allow(clippy::redundant_closure_call)]
                 ($disp)(w);
             }
-            (1, Err(e)) => panic!("C03 violated: exactly one part accepts {} but the wrapper rejects it: {e}", $doc),
+            // "part accepts => wrapper accepts" is a statement about JSON documents: cosmwasm's
+            // decoder skips the value of an unknown field without validating it, so a part can
+            // "accept" text that is not JSON at all (`{"ping":{"x": t{0&&"...`), which the
+            // wrapper -- it parses the whole text first -- rightly refuses
+            (1, Err(e)) => {
+                if serde_json::from_str::<serde_json::Value>($doc).is_ok() {
+                    panic!("C03 violated: exactly one part accepts {} but the wrapper rejects it: {e}", $doc)
+                }
+            }
             (_, Ok(w)) => {
                 if !has_duplicate_keys($doc) {
                     panic!("C03 violated: wrapper accepts {} as {w:?} although {} parts accept it", $doc, accepting.len());
